@@ -25,7 +25,7 @@ from .qlib import lib, q_to_float, omul, ofro, REPO
 
 MCFG = """CONSTANTS MaxN = 7
 SPECIFICATION Spec
-INVARIANTS IndexInRange PadLength Circulant BlockColumn Square
+INVARIANTS IndexInRange PadLength Circulant BlockColumn Square PadSampleAgrees
 CHECK_DEADLOCK FALSE
 """
 
